@@ -179,10 +179,12 @@ def gen_api_case(rng):
       ops.append({'op': 'bind', 'scope': '', 'sel': consumer['_selector'], 'arg': rng.choice(cls), 'val': ref,
                   '_form': 'text', 'block': False})
       tgt = rng.choice(regs)
-      ref2 = {'ref': [rng.choice([[], ['a']]), tgt['_selector'], False],
+      ref2 = {'ref': [rng.choice([[], ['a'], ['a', 'b'], ['a', 'b', 'c']]), tgt['_selector'], rng.random() < 0.3],
               '_spelled': rng.choice(unambiguous_spellings(tgt['_selector'], names))}
       ops.append({'op': 'bind', 'scope': 'a', 'sel': consumer['_selector'], 'arg': rng.choice(cls), 'val': ref2,
                   '_form': 'text', 'block': False})
+      if rng.random() < 0.6:   # every name is known: parsing with skip_unknown changes nothing, however many scopes
+        ops[-1]['_skip'] = rng.choice([True, ['zz.q'], (ref2['_spelled'],)])
       ops.append({'op': 'config'})
   # constants are addressed by dotted suffix too, through %name and through query_parameter
   if rng.random() < 0.5:
